@@ -422,6 +422,10 @@ func genC08(r *simrt.Rand, idx int, tier string) ConcCase {
 				ops = append(ops, Op{K: "yield", N: r.Intn(40)})
 			}
 		}
+		if r.Intn(4) == 0 {
+			// in between, the shared counter leaps ahead (other traffic in the process)
+			ops = append(ops, Op{K: "seqjump", Size: []int{1<<20 + 1, 1 << 21, 1 << 32}[r.Intn(3)]}, Op{K: "gc"})
+		}
 		c.Clients = append(c.Clients, ops)
 	}
 	if r.Intn(3) == 0 {
